@@ -398,8 +398,9 @@ class FileDownloader(Resource, object):
                 first, last = r.split('-', 1)
 
                 if first == '':
-                    # suffix-byte-range-spec
-                    first = filesize - int(last)
+                    # suffix-byte-range-spec: the last N bytes, or the
+                    # whole file when it is shorter than that
+                    first = max(0, filesize - int(last))
                     last = filesize - 1
                 else:
                     # byte-range-spec
@@ -409,7 +410,9 @@ class FileDownloader(Resource, object):
 
                     # last-byte-pos
                     if last == '':
-                        last = filesize - 1
+                        # open-ended: a first-byte-pos at or beyond the end
+                        # is unsatisfiable (416 in render), not unparseable
+                        last = max(first, filesize - 1)
                     else:
                         last = int(last)
 
